@@ -12,7 +12,7 @@ Conformance: harness/clicp_driver.py builds a row's world for real (temporary di
 mutable files on a grid behind the real web API, harness/webgrid.py), runs the real allmydata.scripts.tahoe_cp.Copier
 with do_http routed into that web API, and reads both trees back.  Python compares with the Spec's row.
 """
-import collections, json, random
+import collections, json, os, random
 
 INVS = ["CP_NeedsRecursive_", "CP_MissingSource_", "CP_ErrorChangesNothing_", "CP_MissingTargetOneFile_", "CP_MissingTargetElseDirectory_",
         "CP_ManyNeedDirectory_", "CP_FileTargetOneFile_", "CP_UnnamedFileIntoDirectory_", "CP_SlashOnFile_", "CP_SlashOnDirectoryIgnored_",
@@ -64,14 +64,24 @@ def diff_class(exp, got):
 def run(ctx):
     q = ctx.quick
     rng = random.Random("X-cli_cp-%d" % ctx.seed)
-    consts = {"Seed": ctx.seed, "Mod1": 3 if q else 1, "Mod2": 8 if q else 1, "Mod3": 8 if q else 1, "WorldNames": '{"big", "fresh", "flat"}'}
+    consts = {"Seed": ctx.seed, "Mod1": 4 if q else 1, "Mod2": 10 if q else 1, "Mod3": 10 if q else 1, "WorldNames": '{"big", "fresh", "flat"}'}
     ctx.constants["GEN_CliCp"] = consts
     cfg = "SPECIFICATION Spec\nCONSTANTS\n" + "".join("  %s = %s\n" % kv for kv in consts.items()) + "".join("INVARIANT %s\n" % i for i in INVS)
-    rows, r = ctx.gen("frontends/GenCliCp", cfg, timeout=3000, coverage=False, env={"_JAVA_OPTIONS": "-XX:TieredStopAtLevel=1"})
+    cache = os.environ.get("VERIF_CLICP_ROWS")      # mutant sweeps only: the Spec is unchanged, reuse its table
+    if cache and os.path.exists(cache):
+        with open(cache) as f:
+            rows = json.load(f)
+        r = None
+        ctx.notes.append("GEN skipped (VERIF_CLICP_ROWS)")
+    else:
+        rows, r = ctx.gen("frontends/GenCliCp", cfg, timeout=3000, coverage=False, env={"_JAVA_OPTIONS": "-XX:TieredStopAtLevel=1"})
+        if cache:
+            with open(cache, "w") as f:
+                json.dump(rows, f)
     worlds = {x["world"]: {"L0": x["L0"], "G0": x["G0"]} for x in rows if x["expect"] == "WORLD"}
     cases = [x for x in rows if x["expect"] != "WORLD"]
     cases.sort(key=lambda c: json.dumps([c["world"], c["srcs"], c["tgt"], c["r"], c["caps"]], sort_keys=True))
-    if r.states != len(cases):
+    if r is not None and r.states != len(cases):
         raise RuntimeError("TLC found %d states, the table has %d rows" % (r.states, len(cases)))
 
     # which rows are replayed: all of them (thorough) or a seeded sample that takes rows from every stratum
@@ -164,7 +174,7 @@ def run(ctx):
                 "for every (first source, target, flags) one list of two and one of three sources chosen by index arithmetic rotated by "
                 "the seed; source = local or grid x named path / bare capability / bare alias x trailing slash x existing file / "
                 "directory / missing, target = root, existing file / mutable file / directory, missing name x trailing slash x both "
-                "sides, flags = -r x --caps-only (quick: one row in 3 / 8 / 8).  Replayed: every row (thorough); quick: a seeded sample "
+                "sides, flags = -r x --caps-only (quick: one row in 4 / 10 / 10).  Replayed: every row (thorough); quick: a seeded sample "
                 "with rows of every stratum (world, number of sources, expectation, error classes, sides, flags), 3 per stratum of "
                 "rows that must succeed, 1 otherwise, filled up to 520 with rows that must succeed.  non-trivial = a row that must "
                 "succeed and has several sources, or makes a directory, or writes a mutable file in place.")
